@@ -429,6 +429,13 @@ def first_byte_dispatch(ctx, s, fn, c):
             if callee in ctx.F.fns:
                 reached.add(s.nice(callee).rsplit("::", 1)[-1])
                 continue
+            if callee.rsplit("::", 1)[-1] in ("starts_with", "eq", "ne"):
+                # a literal skipper written in place (or inlined): the comparison with the literal's text
+                lits = [y[1] for a in info["args"] + [p for p in info["pre"] if p is not None]
+                        for y in find_values(a, lambda y: y[0] == "bytes")]
+                if lits:
+                    reached.add("lit:" + lits[0].decode("latin1"))
+                    continue
         if info["kind"] == "switch":
             val = eval_with_byte(info["discr"], c)
             if val is not None:
@@ -461,20 +468,21 @@ def skipper_first_set(ctx, s):
     from ..main import AnalysisError
     fn = None
     for f in cands:
-        r = first_byte_dispatch(ctx, s, f, ord("t"))
+        r = first_byte_dispatch(ctx, s, f, ord("["))
         if any(x.startswith("burn_") and x != "burn_value_at" for x in r) and (fn is None or len(f.blocks) > len(fn.blocks)):
             fn = f
     if fn is None:
         raise AnalysisError("value skipper dispatch not found")
     ctx.functions.add(fn.path)
     got = {}
+    LITERAL = {ord("t"): "lit:true", ord("f"): "lit:false", ord("n"): "lit:null"}
     for c in range(256):
-        r = {x for x in first_byte_dispatch(ctx, s, fn, c) if x.startswith("burn_")}
+        r = {x for x in first_byte_dispatch(ctx, s, fn, c) if x.startswith("burn_") or x.startswith("lit:")}
         if r:
             got[c] = r
     best = set(got)
     wrong = sorted(chr(c) for c in best & JSON_FIRST
-                   if not (len(got[c]) == 1 and next(iter(got[c])).startswith(SKIPPER_OF[c])))
+                   if not (len(got[c]) == 1 and (next(iter(got[c])).startswith(SKIPPER_OF[c]) or next(iter(got[c])) == LITERAL.get(c))))
     ok = best == JSON_FIRST and not wrong
     miss = sorted(chr(c) for c in JSON_FIRST - best)
     extra = sorted(chr(c) for c in best - JSON_FIRST)
